@@ -198,9 +198,6 @@ func sweepCase(t *vlib.T, g *vlib.G, m *methodSpec, ls int, o *objective, conc i
 					if !th && rec > 0 && (thr != 0 || iv != 0) {
 						continue // quick: recorder failures only with the plain settings
 					}
-					if !th && !o.finiteEverywhere() && l.f == 0 && l.g == 0 && l.h == 0 && (thr != 0 || iv != 0) {
-						continue // quick: on the NaN/Inf objectives, runs without an evaluation limit only with the plain settings
-					}
 					c := &runCfg{m: m, ls: ls, o: o, limF: l.f, limG: l.g, limH: l.h, limIt: l.it, gradThr: thr, initVals: iv, conc: conc, recMode: rec}
 					r := run(c)
 					if rec == 0 && thr == 0 && iv == 0 && r != nil && r.res != nil {
